@@ -223,7 +223,9 @@ PROPS["C03"] = {
               "2-3 operations per thread",
     "outside": "C11 weak-memory behaviours (SC only); schedules where both threads are in the middle of an operation "
                "at the same time more than one level deep; more than 3 operations per thread; cursor values >= 2^63; "
-               "the connection-level claim (release never fails) is decided under C13/C08 harnesses when built",
+               "the end-to-end connection data path (does not fit the solver): 'release never fails' is decided as "
+               "queue capacity (MIR->SMT) + queue push succeeds below capacity (FIFO refinement), the bound on offsets in "
+               "flight is an argument",
     "assumptions": ["values pushed are distinct and increasing (1, 2, 3, ...) in the schedule harnesses so that "
                     "order and conservation are observable"],
     "harnesses": _c03,
@@ -445,6 +447,9 @@ _conn_data = [
       tiers=("thorough",), what="buffer 2, borrow 2, 6 steps, no overflow", bounds="unwind 9"),
 ]
 _conn_data += [
+    H("cal::conn::c11_channel_separation", features=CAL, covers=0, timeout=3600, mem_gb=40, tiers=("thorough",),
+      what="2-channel connection: samples, borrow counters and completion queues never cross channels",
+      bounds="unwind 8; 2 channels, 1 sample each"),
     H("cal::conn::conn_release_worst_case_1_1", features=CAL, covers=0, timeout=3600, mem_gb=28,
       what="directed worst case for the completion-queue sizing (buffer + max_borrow + 1 offsets in flight between "
            "two reclaim rounds of the sender): every release succeeds, every offset comes back once",
@@ -456,7 +461,7 @@ _conn_data += [
 ]
 PROPS["C11"] = {
     "bounds": "channel state word for all request ids <= 2^62 and every reachable shape (closed / owned / owned+hint), "
-              "one symbolic operation; 2-channel connection with one sample per channel",
+              "one symbolic operation",
     "outside": "client.rs / server.rs / active_request.rs / pending_response.rs (port layer on a Service): request "
                "routing, response streams, limits on active requests",
     "assumptions": ["claim is about the channel mechanism in iceoryx2-cal only"],
@@ -465,9 +470,6 @@ PROPS["C11"] = {
           what="ZeroCopyPortDetails channel-state protocol (real provided methods): open only from CLOSED, close/hint "
                "only by the owning request, closed channel belongs to nobody, other channels untouched",
           bounds="all request ids <= 2^62, one symbolic operation from every reachable state"),
-        H("cal::conn::c11_channel_separation", features=CAL, covers=0, timeout=3600, mem_gb=28,
-          what="2-channel connection: samples, borrow counters and completion queues never cross channels",
-          bounds="unwind 8; 2 channels, 1 sample each"),
     ],
     "claimed": False,
 }
@@ -480,20 +482,30 @@ PROPS["C05"] = {
     "assumptions": ["KTrig model trigger contract: notify increments a counter, waits consume it, blocking on 0 is "
                     "recorded as 'would block'"],
     "harnesses": [
-        H("c05::c05_bitset_history", covers=1, timeout=1500, mem_gb=6,
+        H("c05::c05_bitset_history", covers=1, timeout=1500, mem_gb=6, tiers=("quick",),
           what="FixedSizeBitSet<10>: set/reset_next/reset_all history vs bit-mask model: nothing lost, no phantom",
-          bounds="unwind 12; 4 steps"),
+          bounds="unwind 12; 3 steps + final drain"),
+        H("c05::c05_bitset_history_deep", covers=1, timeout=3600, mem_gb=10, tiers=("thorough",),
+          what="same, 4 steps", bounds="unwind 12; 4 steps + final drain"),
         H("c05::c05_counting_bitset_history", covers=1, timeout=1500, mem_gb=6,
           what="FixedSizeCountingBitSet<3>: exact counts per id", bounds="unwind 8; 5 steps"),
-        H("c05::sched::c05_s_bitset_drain_race", crate="hs", covers=2, timeout=3000, mem_gb=12,
+        H("c05::sched::c05_s_reset_all_race", crate="hs", covers=2, timeout=3000, mem_gb=12, tiers=("quick",),
+          what="listener draining with reset_all (FixedSizeBitSet<10>) while up to 2 notifications land before or at any "
+               "of its shared-memory operations, then a quiescent reset_all: no lost, no phantom, never more deliveries "
+               "than notifications", bounds="unwind 12; ids {1,8,9}; 2 notifications"),
+        H("c05::sched::c05_s_reset_next_race", crate="hs", covers=2, timeout=3000, mem_gb=12, tiers=("quick",),
+          what="listener draining with reset_next (FixedSizeBitSet<3>) under the same race, then a quiescent reset_all; "
+               "reset_next finds something whenever a completed notification was pending",
+          bounds="unwind 6; ids 0..2; 2 notifications"),
+        H("c05::sched::c05_s_bitset_drain_race", crate="hs", covers=2, timeout=7200, mem_gb=30, tiers=("thorough",),
           what="listener draining (reset_all, reset_next, reset_all) while up to 3 notifications land at any of its "
                "shared-memory operations: no lost, no phantom, never more deliveries than notifications",
           bounds="unwind 12; ids {1,8,9}"),
-        H("cal::c05ev::c05_ev_history", features=CAL, covers=2, timeout=3600, mem_gb=28,
+        H("cal::c05ev::c05_ev_history", features=CAL, covers=2, timeout=5400, mem_gb=30, tiers=("thorough",),
           what="real event hand-shake (Handle::notify / Waiter::drain_events) over KStorage + counting trigger: 3 symbolic "
                "notify/try_wait/blocking_wait steps; delivered == notified-and-undelivered; no sleep while pending",
           bounds="unwind 16; ids <= 3"),
-        H("cal::c05ev::c05_ev_notify_races_wait", features=CAL, covers=2, timeout=3600, mem_gb=28,
+        H("cal::c05ev::c05_ev_notify_races_wait", features=CAL, covers=2, timeout=7200, mem_gb=34, tiers=("thorough",),
           what="a notification wakes the listener inside its wait call (or at the start of the drain) and a second one "
                "(id symbolic) completes while the collected ids are handed to the callback; the following wait delivers "
                "everything notified and never sleeps on a pending notification", bounds="unwind 16; ids <= 3, 2 waits"),
@@ -538,20 +550,25 @@ PROPS["C14"]["harnesses"] += [
       what="FixedSizeUsedChunkList<3> byte-copied to a fresh block between two inserts", bounds="unwind 8"),
 ]
 PROPS["C08"] = {
-    "bounds": "per connection: receiver side never holds more than buffer + max borrowed; receive beyond max borrow "
-              "refused without effect and possible again after one release; release never fails; index sets refuse the "
-              "(capacity+1)-th acquire and accept again after a release; sizing formulas via MIR->SMT for parameters < 2^16",
+    "bounds": "sizing formulas via MIR->SMT for all limit values < 2^16; index sets refuse the (capacity+1)-th acquire "
+              "and accept again after a release (capacity 2, 5 symbolic operations)",
     "outside": "LoanError::ExceedsMaxLoans, port/node creation limits, ActiveRequest limits (port layer); that the demand "
                "expression of the sizing formulas is the true worst case of the port layer is an argument, not a check",
-    "assumptions": ["connection-level and formula-level claim only"],
-    "harnesses": _conn_data + [
+    "assumptions": ["formula-level and index-set-level claim only"],
+    "harnesses": [
         H("c09::c09_uis_history_cap2", covers=3, timeout=900, mem_gb=4,
           what="UniqueIndexSet refuses the (capacity+1)-th acquire with OutOfIndices and accepts again after one release",
           bounds="unwind 8; 5 steps"),
     ],
     "claimed": False,
 }
-PROPS["C03"]["harnesses"] += _conn_data
+# the end-to-end connection data path (_conn_data) does not fit the solver (DESIGN.md section 12): it stays
+# registered under the unclaimed C01/C02 entries only, for reference and for `bin/check C01 --only ...` experiments
+PROPS["C03"]["harnesses"] += [
+    H("cal::conn::c02_used_chunk_list_history", features=CAL, covers=1, timeout=1500, mem_gb=6,
+      what="FixedSizeUsedChunkList<4>: insert/remove/remove_all history vs bit-mask model (the offsets a sender gets "
+           "back when a receiver vanishes: each once, none invented)", bounds="unwind 8; 5 steps"),
+]
 
 
 PROPS["C10"] = {
@@ -605,6 +622,93 @@ PROPS["C19"].update({
                   "domain isolation for symbolic prefixes and suffixes.",
     "level_note": "strings <= 4 bytes; the specification predicates in c19.rs are trusted; ServiceName/NodeName, config "
                   "and directory listing are outside the claim",
+})
+
+_SCHED = ("Schedules: the atomics crate (iceoryx2-pal-concurrency-sync) is swapped for a generated drop-in in which "
+          "every atomic operation (and, where stated, every UnsafeCell access) of one thread is a preemption point at "
+          "which the solver decides whether complete operations of the other thread run (nested preemption, "
+          "sequentially consistent); the schedule is part of the same SAT query")
+
+PROPS["C03"].update({
+    "level_text": _BMC + ". Index queue, safely-overflowing index queue and generic SPSC queue: symbolic sequential "
+                  "histories against a FIFO model (conservation, order, capacity, eviction of the oldest), producer/"
+                  "consumer hand-over, and both role assignments under symbolic schedules. " + _SCHED + ". The "
+                  "connection clause is decided in parts: completion-queue capacity >= buffer + max_borrow + 1 "
+                  "and submission-queue capacity == buffer from the MIR of the real sizing functions (z3/cvc5), and "
+                  "the used-chunk list against a set model; the end-to-end connection data path did not fit the solver.",
+    "level_note": "capacity <= 2 (3 thorough), 2-3 operations per thread, SC interleavings only: C11 weak-memory stale "
+                  "reads are outside the claim; zero_copy_connection try_send/receive/release end-to-end is outside "
+                  "the claim (44 M variables at the smallest configuration)",
+})
+PROPS["C05"].update({
+    "level_text": _BMC + ". Event-id stores (BitSet, CountingBitSet): symbolic set/reset_next/reset_all histories "
+                  "against a mask / count model, and a draining listener preempted at each shared-memory operation while "
+                  "notifications land (no lost, no phantom, never more deliveries than notifications). " + _SCHED +
+                  ". Thorough tier adds the real event hand-shake (event::common Handle::notify / Waiter::drain_events) "
+                  "over an in-memory DynamicStorage and a counting model trigger, including a notification that "
+                  "races the wait call and the collecting loop.",
+    "level_note": "quick tier is the bit-set level only; the hand-shake harnesses need 30-35 GB and ~1 h and live in the "
+                  "thorough tier; OS trigger back-ends (semaphore, sockets) are replaced by a model trigger; timed waits, "
+                  "port layer (notifier.rs/listener.rs) outside the claim",
+})
+PROPS["C08"].update({
+    "level_text": "MIR -> SMT-LIB2 translation of the real sizing functions (publish_subscribe / request_response static "
+                  "config, zero_copy_connection queue sizes), regenerated from /repo on every run and decided by z3 with "
+                  "cvc5 as cross-check: no overflow and chunks >= worst-case demand for all limit values < 2^16; plus "
+                  + _BMC + " for the index-set limit (the (capacity+1)-th acquire is refused with the documented error, "
+                  "has no effect and succeeds again after one release).",
+    "level_note": "formula level and index-set level only: that the demand expression is the true worst case of the port "
+                  "layer is an argument (DESIGN.md), ExceedsMaxLoans / port / node / request limits of the iceoryx2 crate "
+                  "and the connection-level borrow limit are outside the claim",
+    "technique": "symbolic execution of rustc MIR into SMT-LIB2 bit-vector queries decided by z3 5.1 / cvc5 1.0, plus "
+                 "bounded model checking (Kani 0.68 / CBMC 6.11)",
+})
+PROPS["C09"].update({
+    "level_text": _BMC + ". UniqueIndexSet (lock-free free list with ABA tag) and RobustUniqueIndexSet: symbolic "
+                  "acquire / release / lock-if-last / recover histories against a set / owner model (exclusive, in range, "
+                  "leak free, exact failure conditions), and two threads racing on the real free list under symbolic "
+                  "schedules incl. the ABA shape and recovery of a dead owner. " + _SCHED + ".",
+    "level_note": "capacity <= 2 (4 thorough), 1 preempted operation with up to 2 complete operations of the other "
+                  "thread; SC only; wrap of the 16-bit ABA tag and 3 threads outside the claim",
+})
+PROPS["C11"].update({
+    "level_text": _BMC + ". Channel-state protocol of zero_copy_connection (the mechanism that routes responses to "
+                  "requests): one symbolic operation of the real ZeroCopyPortDetails provided methods from every "
+                  "reachable state word, all request ids: a channel is opened only from CLOSED, closed or hinted only by "
+                  "the owning request id, a closed channel belongs to nobody, other channels are untouched.",
+    "level_note": "channel mechanism in iceoryx2-cal only; client.rs / server.rs / pending_response.rs / active_request.rs "
+                  "(request routing on a Service, stream limits) cannot be encoded and are outside the claim; two "
+                  "port-layer observations are documented in DESIGN.md, not decided",
+})
+PROPS["C12"].update({
+    "level_text": _BMC + ". UnrestrictedAtomic (seqlock-style blackboard cell): sequential store/load round trips "
+                  "(copy and loan-style two-step writes), raw run-time-layout API (cells aligned, disjoint, in bounds for "
+                  "every misalignment), reader preempted at every shared operation and in the middle of its copy while "
+                  "the writer completes stores, writer preempted while readers load, single-writer exclusion. "
+                  + _SCHED + "; the payload copy is split into two halves with a preemption point in between.",
+    "level_note": "payload [u32;2], <= 3 stores / loads, SC interleavings only; weak-memory reorderings and payloads "
+                  "copied in more than two pieces are outside the claim",
+})
+PROPS["C13"].update({
+    "level_text": _BMC + ". Real zero_copy_connection::common Builder/Sender/Receiver over an in-memory DynamicStorage "
+                  "(KStorage): second attach refused, every drop order, forced removal, each single mismatching "
+                  "parameter, and an attach racing the teardown at the two points where another process can act: "
+                  "destroyed exactly once by the last one out, never under an attached role, racing attach refused or "
+                  "on a live resource.",
+    "level_note": "one connection, buffer 1 / borrow 1 / 1 chunk; the storage is a model of the DynamicStorage contract "
+                  "(posix shared memory / files are outside); races are the hook points of the storage model, not "
+                  "every atomic operation",
+})
+PROPS["C14"].update({
+    "level_text": _BMC + ". For each relocatable structure: a symbolic operation history in which the structure is "
+                  "byte-copied to a different block at a symbolic point (old block scribbled and freed) and compared in "
+                  "lock-step with a twin that stayed; RelocatablePointer follows the placement delta exactly.",
+    "level_note": "2-3 operations, capacities 2-3; SlotMap / FlatMap relocation in the thorough tier only (30 GB)",
+})
+PROPS["C19"].update({
+    "level_note": "strings <= 4 bytes; the specification predicates in c19.rs are trusted; ServiceName / NodeName "
+                  "construction is included (feature iox2), config files and real directory listing are outside the "
+                  "claim; open finding F-C19-1 (prefix of a prefix) is reported as KNOWN-FINDING",
 })
 
 # properties whose checks are still being stabilised are not claimed in MANIFEST.json yet
